@@ -35,6 +35,8 @@ type World struct {
 	Slot  int64 // next slot to be driven; slot s starts at genesis + 10*s seconds
 	Keys  map[types.Address]*wallet.KeyPair
 	Users []*wallet.KeyPair
+	// NonceNoise: some submitted blocks carry a nonce although they claim no proof of work
+	NonceNoise bool
 
 	Net *Net
 
@@ -182,6 +184,11 @@ func (w *World) Submit(n *simnode.Node, template *nom.AccountBlock) (*nom.Accoun
 				w.R.Probe("acknowledged-below-frontier")
 			}
 		}
+	}
+	if w.NonceNoise && template.Difficulty == 0 && w.R.T.Choose(6) == 0 {
+		// unusual but legal: a nonce on a block that claims no proof of work (the nonce is a hashed field)
+		copy(template.Nonce.Data[:], w.R.T.Bytes(8))
+		w.R.Probe("block-with-nonce-but-no-difficulty")
 	}
 	tx, err := n.Sup.GenerateFromTemplate(template, kp.Signer)
 	if err != nil {
